@@ -511,4 +511,126 @@ theorem held_le_one {n : Nat} {st : ChoiceSt} (hinv : Choice.Inv n st) : Choice.
     rw [filter_val_single_rest l n k c hlen hk hc hrest]
     exact length_filter_single (fun c => !c.isHole) rfl n k c
 
+
+/-- ill-formed CHOICE operations: unknown name / tag, position outside the alternatives, a value
+    the alternative refuses -/
+def choiceIllFormed (n : Nat) : ChoiceOp → Bool
+  | .setItemPos i a | .setPos i a => (pyIdx n i).isNone || a == .bad
+  | .setItemName k a | .setName k a | .setType k a => decide (n ≤ k) || a == .bad
+  | .setNone i => (pyIdx n i).isNone
+  | .getItemPos i | .getPos i true => (pyIdx n i).isNone
+  | .getItemName k | .getName k _ | .getType k _ => decide (n ≤ k)
+  | _ => false
+
+theorem choice_setAt_bad {n : Nat} (hn : n ≠ 0) {st : ChoiceSt} (hinv : Choice.Inv n st) (i : Int)
+    (a : Option Arg) (h : (pyIdx n i).isNone = true ∨ a = some .bad) : Choice.setAt n st i a = none := by
+  rw [choice_setAt hn hinv]
+  cases hk : pyIdx n i with
+  | none => cases a <;> rfl
+  | some k =>
+    rcases h with h | h
+    · simp [hk] at h
+    · subst h; rfl
+
+/-- **ill-formed operations raise and change nothing** (CHOICE) -/
+theorem choice_illformed {n : Nat} (hn : n ≠ 0) {st : ChoiceSt} (hinv : Choice.Inv n st) (op : ChoiceOp)
+    (h : choiceIllFormed n op = true) :
+    (Choice.step n st op).2.isErr = true ∧ (Choice.step n st op).1 = st := by
+  have hname : ∀ k, n ≤ k → Choice.posOf n k = none := by
+    intro k hk; simp [Choice.posOf]; omega
+  have hget : ∀ i, (pyIdx n i).isNone = true → Choice.getAt n st i true = (st, .libErr) := by
+    intro i hi
+    have hk : pyIdx n i = none := by simpa using hi
+    unfold Choice.getAt
+    have hsl : (st.comps.bind fun l => Rec.slot l i) = none := by
+      rcases inv_cases hinv with h | h | ⟨l, k, h, hlen, _, _, _⟩
+      · subst h; rfl
+      · subst h; simp [slot_nil]
+      · subst h; simp [Rec.slot, hlen, hk]
+    have hne : ¬ (st.cur.isSome = true ∧ Option.map (fun (k : Nat) => (k : Int)) st.cur = some i) := by
+      rintro ⟨_, h2⟩
+      rcases inv_cases hinv with h | h | ⟨l, k, h, hlen, hkn, _, _⟩
+      · subst h; simp at h2
+      · subst h; simp at h2
+      · subst h
+        simp only [Option.map_some, Option.some.injEq] at h2
+        subst h2
+        rw [pyIdx_cast n k hkn] at hk
+        cases hk
+    simp only [hne, if_false, hsl, Option.getD_none, Bool.not_true, Bool.false_eq_true, Comp.isHole, if_true,
+      choice_setAt_bad hn hinv i none (.inl hi)]
+  cases op with
+  | setItemPos i a =>
+    simp only [choiceIllFormed, Bool.or_eq_true, beq_iff_eq] at h
+    simp only [Choice.step, Choice.setOut, choice_setAt_bad hn hinv i (some a) (h.imp id (by intro e; rw [e]))]
+    exact ⟨by first | rfl | trivial, by first | rfl | trivial⟩
+  | setPos i a =>
+    simp only [choiceIllFormed, Bool.or_eq_true, beq_iff_eq] at h
+    simp only [Choice.step, Choice.setOut, choice_setAt_bad hn hinv i (some a) (h.imp id (by intro e; rw [e]))]
+    exact ⟨by first | rfl | trivial, by first | rfl | trivial⟩
+  | setNone i =>
+    simp only [choiceIllFormed] at h
+    simp only [Choice.step, Choice.setOut, choice_setAt_bad hn hinv i none (.inl h)]
+    exact ⟨by first | rfl | trivial, by first | rfl | trivial⟩
+  | setItemName k a =>
+    simp only [choiceIllFormed, Bool.or_eq_true, decide_eq_true_eq, beq_iff_eq] at h
+    simp only [Choice.step, Choice.setOut]
+    rcases h with h | h
+    · rw [hname k h]; exact ⟨by first | rfl | trivial, by first | rfl | trivial⟩
+    · cases Choice.posOf n k with
+      | none => exact ⟨by first | rfl | trivial, by first | rfl | trivial⟩
+      | some i =>
+        simp only [choice_setAt_bad hn hinv i (some a) (.inr (by rw [h]))]
+        exact ⟨by first | rfl | trivial, by first | rfl | trivial⟩
+  | setName k a =>
+    simp only [choiceIllFormed, Bool.or_eq_true, decide_eq_true_eq, beq_iff_eq] at h
+    simp only [Choice.step, Choice.setOut]
+    rcases h with h | h
+    · rw [hname k h]; exact ⟨by first | rfl | trivial, by first | rfl | trivial⟩
+    · cases Choice.posOf n k with
+      | none => exact ⟨by first | rfl | trivial, by first | rfl | trivial⟩
+      | some i =>
+        simp only [choice_setAt_bad hn hinv i (some a) (.inr (by rw [h]))]
+        exact ⟨by first | rfl | trivial, by first | rfl | trivial⟩
+  | setType k a =>
+    simp only [choiceIllFormed, Bool.or_eq_true, decide_eq_true_eq, beq_iff_eq] at h
+    simp only [Choice.step, Choice.setOut]
+    rcases h with h | h
+    · rw [hname k h]; exact ⟨by first | rfl | trivial, by first | rfl | trivial⟩
+    · cases Choice.posOf n k with
+      | none => exact ⟨by first | rfl | trivial, by first | rfl | trivial⟩
+      | some i =>
+        simp only [choice_setAt_bad hn hinv i (some a) (.inr (by rw [h]))]
+        exact ⟨by first | rfl | trivial, by first | rfl | trivial⟩
+  | getItemPos i =>
+    simp only [choiceIllFormed] at h
+    simp only [Choice.step, hget i h]; exact ⟨by first | rfl | trivial, by first | rfl | trivial⟩
+  | getPos i inst =>
+    cases inst with
+    | false => simp [choiceIllFormed] at h
+    | true =>
+      simp only [choiceIllFormed] at h
+      simp only [Choice.step, hget i h]; exact ⟨by first | rfl | trivial, by first | rfl | trivial⟩
+  | getItemName k =>
+    simp only [choiceIllFormed, decide_eq_true_eq] at h
+    simp only [Choice.step, hname k h]; exact ⟨by first | rfl | trivial, by first | rfl | trivial⟩
+  | getName k inst =>
+    simp only [choiceIllFormed, decide_eq_true_eq] at h
+    simp only [Choice.step, hname k h]; exact ⟨by first | rfl | trivial, by first | rfl | trivial⟩
+  | getType k inst =>
+    simp only [choiceIllFormed, decide_eq_true_eq] at h
+    simp only [Choice.step, hname k h]; exact ⟨by first | rfl | trivial, by first | rfl | trivial⟩
+  | clear | reset | clone _ | len | keys | contains _ | values | items | getComponent | getChosenName | pretty
+    | eqTo _ | encode => simp [choiceIllFormed] at h
+
+/-- abstract content is a function of the prototype state -/
+theorem choice_abs_spec (st : ChoiceSt) : Choice.abs st = OptionSpec.abs (Choice.absO st) := by
+  unfold Choice.abs OptionSpec.abs Choice.absO
+  cases st.cur with
+  | none => rfl
+  | some k =>
+    cases Choice.chosen st with
+    | none => rfl
+    | some c => cases c <;> rfl
+
 end Asn1.Container
